@@ -1365,8 +1365,6 @@ func judgeDocLocal(d doc) docObs {
 			j.fail("import-fails:"+d.Format+":circular-ref", "the second import of a document with a recursive schema fails (the first succeeded): "+firstLine(second.err))
 		} else if mediaCollision(d) {
 			j.fail("second-import-differs:"+d.Format+":media-same-identifier", "importing the same document again gives different text: two request media types of one operation give the same parameter name, and which body parameter survives depends on the map order")
-		} else if orderDependentArray(d) {
-			j.fail("second-import-differs:"+d.Format+":array-of-builtin-prefixed-ref", "importing the same document again gives different text: an array definition whose items are a $ref to a definition named like a builtin-type prefix is written with or without the `_` prefix depending on the map order")
 		} else {
 			j.fail("second-import-differs:"+d.Format, "importing the same document again gives different text")
 		}
@@ -1381,10 +1379,6 @@ func judgeDocLocal(d doc) docObs {
 			}
 			if mediaCollision(d) {
 				j.fail("second-import-differs:"+d.Format+":media-same-identifier", "importing the same document again gives different text: two request media types of one operation give the same parameter name, and which body parameter survives depends on the map order")
-				break
-			}
-			if orderDependentArray(d) {
-				j.fail("second-import-differs:"+d.Format+":array-of-builtin-prefixed-ref", "importing the same document again gives different text: an array definition whose items are a $ref to a definition named like a builtin-type prefix is written with or without the `_` prefix depending on the map order")
 				break
 			}
 			j.fail("second-import-differs:"+d.Format, fmt.Sprintf("import number %d of the same document in one process gives different text:\n%s", i+3, firstDiff(imp.text, again.text)))
@@ -1770,22 +1764,6 @@ func gFtype(t ptype) string {
 }
 
 var builtinTypeNames = []string{"no_primitive", "empty", "any", "bool", "int", "int32", "int64", "float", "decimal", "string", "bytes", "string_8", "date", "datetime", "xml", "uuid"}
-
-// orderDependentArray: an array definition whose items are a $ref to a definition that getSyslTypeName prefixes
-// with "_" (its lower-cased name starts with a builtin type name): the output depends on Go's map order
-func orderDependentArray(d doc) bool {
-	for _, s := range d.Schemas {
-		if s.Kind == "array" && s.Elem != nil && s.Elem.Kind == "ref" {
-			l := strings.ToLower(s.Elem.Ref)
-			for _, b := range builtinTypeNames {
-				if strings.HasPrefix(l, b) {
-					return true
-				}
-			}
-		}
-	}
-	return false
-}
 
 // flatOAS: is the document inside the subset the Coq model covers (no inline objects)?
 func flatOAS(d doc) bool {
